@@ -1689,12 +1689,40 @@ static void emit_text(Obj *prog) {
 
     // Save arg registers if function is variadic
     if (fn->va_area) {
-      int gp = 0, fp = 0;
+      // Count the registers and the stack area taken by the named
+      // parameters, classifying them as assign_lvar_offsets() does.
+      int gp = 0, fp = 0, top = 16;
       for (Obj *var = fn->params; var; var = var->next) {
-        if (is_flonum(var->ty))
-          fp++;
-        else
-          gp++;
+        Type *ty = var->ty;
+
+        switch (ty->kind) {
+        case TY_STRUCT:
+        case TY_UNION:
+          if (struct_fits_regs(ty, gp, fp)) {
+            int ngp, nfp;
+            struct_regs(ty, &ngp, &nfp);
+            gp += ngp;
+            fp += nfp;
+            continue;
+          }
+          break;
+        case TY_FLOAT:
+        case TY_DOUBLE:
+          if (fp < FP_MAX) {
+            fp++;
+            continue;
+          }
+          break;
+        case TY_LDOUBLE:
+          break;
+        default:
+          if (gp < GP_MAX) {
+            gp++;
+            continue;
+          }
+        }
+
+        top = align_to(top, MAX(8, var->align)) + ty->size;
       }
 
       int off = fn->va_area->offset;
@@ -1703,7 +1731,7 @@ static void emit_text(Obj *prog) {
       println("  movl $%d, %d(%%rbp)", gp * 8, off);          // gp_offset
       println("  movl $%d, %d(%%rbp)", fp * 16 + 48, off + 4); // fp_offset
       println("  movq %%rbp, %d(%%rbp)", off + 8);            // overflow_arg_area
-      println("  addq $16, %d(%%rbp)", off + 8);
+      println("  addq $%d, %d(%%rbp)", align_to(top, 8), off + 8);
       println("  movq %%rbp, %d(%%rbp)", off + 16);           // reg_save_area
       println("  addq $%d, %d(%%rbp)", off + 24, off + 16);
 
